@@ -198,6 +198,20 @@ def container_types(o: Any, OM: Any, path: tuple = ()) -> dict:
     return res
 
 
+def reorder(d: Any, how: str) -> Any:
+    """An equal dictionary with a different insertion order (a checkpoint store may return entries sorted, reversed, ...)."""
+    if not isinstance(d, dict) or how == "natural":
+        return d
+    keys = list(d.keys())
+    if how == "reversed":
+        keys = keys[::-1]
+    elif how == "sorted_str":
+        keys = sorted(keys, key=lambda k: str(k))
+    elif how == "sorted_str_desc":
+        keys = sorted(keys, key=lambda k: str(k), reverse=True)
+    return {k: reorder(d[k], how) for k in keys}
+
+
 def oracle_module(case: dict) -> Outcome:
     out = Outcome()
     M, OM = _module_cls()
@@ -216,7 +230,8 @@ def oracle_module(case: dict) -> Outcome:
                  f"reachable {len(want)} in state_dict {len(got)}; missing {[p for p, _ in want if (p, _) not in got][:3]} extra {[p for p, _ in got if (p, _) not in want][:3]}")
     ids = [(p, id(t), t.data_ptr()) for p, t in ts]
     types0 = container_types(m, OM)
-    ok, _ = call_sut(out, "C16.load_state_dict", "load_state_dict", lambda: m.load_state_dict(src.state_dict()))
+    sd_src = reorder(src.state_dict(), case.get("order", "natural"))
+    ok, _ = call_sut(out, "C16.load_state_dict", "load_state_dict", lambda: m.load_state_dict(sd_src))
     if not ok:
         return out
     ts2 = reach(m, OM, [])
@@ -257,6 +272,7 @@ def oracle_restore(case: dict) -> Outcome:
     if len(flat) != len(ts):
         out.fail("C16.restore.injective", "saved entries differ from the number of reachable tensors", f"{len(flat)} vs {len(ts)}")
         return out
+    flat = reorder(flat, case.get("order", "natural"))
     ok, _ = call_sut(out, "C16.restore.load", "update_param_state_dict_object(s', unflatten(flatten(extract(s))))",
                      lambda: update_param_state_dict_object(s2, unflatten(flat)))
     if not ok:
@@ -319,6 +335,7 @@ def _values(allow_module: bool = True):
         opts = [
             st.lists(ch, max_size=3).map(lambda l: ["l", l]),
             st.lists(ch, max_size=3).map(lambda l: ["u", l]),
+            st.integers(11, 13).map(lambda n: ["u", [["t"]] * n]),
             st.lists(st.tuples(dkeys, ch), max_size=3, unique_by=lambda kv: kv[0]).map(lambda l: ["d", [list(x) for x in l]]),
         ]
         if allow_module:
@@ -333,7 +350,8 @@ def strategy_module():
     from hypothesis import strategies as st
 
     vals, names = _values()
-    return st.fixed_dictionaries({"mod": st.lists(st.tuples(names, vals), min_size=1, max_size=4, unique_by=lambda kv: kv[0]).map(lambda l: ["m", [list(x) for x in l]])})
+    return st.fixed_dictionaries({"mod": st.lists(st.tuples(names, vals), min_size=1, max_size=4, unique_by=lambda kv: kv[0]).map(lambda l: ["m", [list(x) for x in l]]),
+                                  "order": st.sampled_from(["natural", "reversed", "sorted_str", "sorted_str_desc"])})
 
 
 def strategy_restore():
@@ -343,7 +361,7 @@ def strategy_restore():
 
     # optimizer param-state shape: dict -> (tensor | dict | module), modules hold tensors in tuples/dicts (as the Kronecker factor state does)
     tens = st.just(["t"])
-    tup = st.lists(tens, max_size=3).map(lambda l: ["u", l])
+    tup = st.one_of(st.lists(tens, max_size=3), st.integers(11, 12).map(lambda n: [["t"]] * n)).map(lambda l: ["u", l])
     mod = st.lists(st.tuples(st.sampled_from(["factor_matrices", "inv_factor_matrices", "flags", "vals"]), st.one_of(tup, tens)), max_size=3,
                    unique_by=lambda kv: kv[0]).map(lambda l: ["m", [list(x) for x in l]])
     block = st.lists(st.tuples(st.sampled_from(["shampoo", "momentum", "filtered_grad", "adagrad", "sub"]), st.one_of(tens, mod, st.just(["d", []]))), max_size=4,
@@ -351,7 +369,7 @@ def strategy_restore():
     top = st.lists(st.tuples(st.sampled_from(["block_0", "block_1", "block_2", "step"]), st.one_of(block, tens)), min_size=1, max_size=4,
                    unique_by=lambda kv: kv[0]).map(lambda l: ["d", [list(x) for x in l]])
     _ = st2
-    return st.fixed_dictionaries({"state": top, "pick": st.integers(0, 1000)})
+    return st.fixed_dictionaries({"state": top, "pick": st.integers(0, 1000), "order": st.sampled_from(["natural", "reversed", "sorted_str", "sorted_str_desc"])})
 
 
 STREAMS = {
